@@ -217,7 +217,7 @@ class ImplicitFuncComp(ImplicitComponent):
             Flag indicating if the children should call linearize on their linear solvers.
         """
         if self.options['derivs_method'] == 'jax':
-            if self._mode != self._tangent_direction:
+            if self.best_partial_deriv_direction() != self._tangent_direction:
                 # force recomputation of coloring and tangents
                 self._first_call_to_linearize = True
                 self._tangents = None
@@ -244,7 +244,9 @@ class ImplicitFuncComp(ImplicitComponent):
         invals = list(self._ordered_func_invals(self._inputs, self._outputs))
         coloring = self._coloring_info['coloring']
 
-        if self._mode == 'rev':  # use reverse mode to compute derivs
+        # use the direction that the coloring (if any) was computed for, regardless of the mode
+        # of the problem
+        if self.best_partial_deriv_direction() == 'rev':  # use reverse mode to compute derivs
             outvals = tuple(self._outputs.values())
             tangents = self._get_tangents(outvals, 'rev', coloring)
             if coloring is not None:
